@@ -2,7 +2,7 @@
    Property-level theorems only; each is closed by [exact] of a lemma proved
    elsewhere and followed by Print Assumptions. *)
 From Coq Require Import ZArith List Bool Permutation.
-From PV Require Import EventList.Key EventList.KeyProofs EventList.Model EventList.Refine.
+From PV Require Import EventList.Key EventList.KeyProofs EventList.Model EventList.Refine EventList.HeapqProofs.
 Import ListNotations.
 
 (* Every history of add/remove/pop/peek/contains/size/is_empty/clear on the
@@ -16,6 +16,21 @@ Theorem C01_refines_sorted_multiset :
     is_heap h' /\ isort h' = s' /\ os = os'.
 Proof. exact refine_from_empty. Qed.
 Print Assumptions C01_refines_sorted_multiset.
+
+(* The heap library actually used — the transcription of CPython's heapq that
+   the correspondence check executes — meets the contract, so the refinement
+   holds for it unconditionally. *)
+Theorem C01_heapq_meets_contract : heap_contract heapq.
+Proof. exact heapq_contract. Qed.
+Print Assumptions C01_heapq_meets_contract.
+
+Theorem C01_heapq_event_list_refines_sorted_multiset :
+  forall ops,
+    let '(h', os) := run_ops (impl_step heapq) [] ops in
+    let '(s', os') := run_ops spec_step [] ops in
+    is_heap h' /\ isort h' = s' /\ os = os'.
+Proof. exact (refine_from_empty heapq heapq_contract). Qed.
+Print Assumptions C01_heapq_event_list_refines_sorted_multiset.
 
 (* The specification state is always sorted by (time, -priority, id), so pop
    and peek hand out the minimum ... *)
